@@ -55,6 +55,7 @@ def SExpr.retext (f : List Char → List Char) : SExpr → SExpr
   | .join sep items => .join sep (items.map (·.retext f))
   | .esc a q => .esc (a.retext f) q
   | .fmt fm args => .fmt fm (args.retext f)
+  | .fmtp ps as => .fmtp ps (as.map (·.retext f))
   | .build b => .build (b.retext f)
   | .frag kids => .frag (BKid.retextList f kids)
 
@@ -631,6 +632,64 @@ mutual
         rw [bkid_skel env b, bkids_skel env bs]
 end
 
+theorem fillAttrs_len : ∀ (attrs : List (Name × FAttr)) (a b : List (List Char)), a.length = b.length →
+    match fillAttrs attrs a, fillAttrs attrs b with
+    | none, none => True
+    | some r, some r' => r.1.map (·.1) = r'.1.map (·.1) ∧ r.2.length = r'.2.length
+    | _, _ => False
+  | [], a, b, h => ⟨rfl, h⟩
+  | (n, .lit v) :: rest, a, b, h => by
+      have ih := fillAttrs_len rest a b h
+      simp only [fillAttrs]
+      cases h1 : fillAttrs rest a <;> cases h2 : fillAttrs rest b <;> simp_all
+  | (n, .hole) :: rest, [], [], _ => trivial
+  | (n, .hole) :: rest, [], _ :: _, h => by simp at h
+  | (n, .hole) :: rest, _ :: _, [], h => by simp at h
+  | (n, .hole) :: rest, x :: xs, y :: ys, h => by
+      have ih := fillAttrs_len rest xs ys (by simpa using h)
+      simp only [fillAttrs]
+      cases h1 : fillAttrs rest xs <;> cases h2 : fillAttrs rest ys <;> simp_all
+
+/-- the skeleton of the filled pieces depends on the number of operands only -/
+theorem fillEvents_skel : ∀ (ps : List FPiece) (a b : List (List Char)), a.length = b.length →
+    (fillEvents ps a).map skelOf = (fillEvents ps b).map skelOf
+  | [], [], [], _ => rfl
+  | [], [], _ :: _, h => by simp at h
+  | [], _ :: _, [], h => by simp at h
+  | [], _ :: _, _ :: _, _ => rfl
+  | .text s :: rest, a, b, h => by
+      have ih := fillEvents_skel rest a b h
+      simp only [fillEvents, Option.map_map]
+      cases h1 : fillEvents rest a <;> cases h2 : fillEvents rest b <;> simp_all [skelOf, Ev.sk]
+  | .hole :: rest, [], [], _ => rfl
+  | .hole :: rest, [], _ :: _, h => by simp at h
+  | .hole :: rest, _ :: _, [], h => by simp at h
+  | .hole :: rest, x :: xs, y :: ys, h => by
+      have ih := fillEvents_skel rest xs ys (by simpa using h)
+      simp only [fillEvents, Option.map_map]
+      cases h1 : fillEvents rest xs <;> cases h2 : fillEvents rest ys <;> simp_all [skelOf, Ev.sk]
+  | .open t attrs :: rest, a, b, h => by
+      have ha := fillAttrs_len attrs a b h
+      simp only [fillEvents]
+      cases h1 : fillAttrs attrs a with
+      | none =>
+        cases h2 : fillAttrs attrs b with
+        | none => rfl
+        | some r' => simp [h1, h2] at ha
+      | some r =>
+        cases h2 : fillAttrs attrs b with
+        | none => simp [h1, h2] at ha
+        | some r' =>
+          simp only [h1, h2] at ha
+          have ih := fillEvents_skel rest r.2 r'.2 ha.2
+          simp only [Option.map_map]
+          cases h3 : fillEvents rest r.2 <;> cases h4 : fillEvents rest r'.2 <;>
+            simp_all [skelOf, Ev.sk]
+  | .close t :: rest, a, b, h => by
+      have ih := fillEvents_skel rest a b h
+      simp only [fillEvents, Option.map_map]
+      cases h1 : fillEvents rest a <;> cases h2 : fillEvents rest b <;> simp_all [skelOf, Ev.sk]
+
 theorem site_skel (env : Env) (e : SExpr) :
     skelOf (expectedSite (env.map (·.retext f)) (e.retext f)) = skelOf (expectedSite env e) := by
   cases e with
@@ -645,6 +704,12 @@ theorem site_skel (env : Env) (e : SExpr) :
     cases h1 : mMod (fun _ s => s) fm (specFArgs (env.map (·.retext f)) (args.retext f)) <;>
       cases h2 : mMod (fun _ s => s) fm (specFArgs env args) <;>
       simp_all [Except.isOk, Except.toBool, skelOf, Ev.sk]
+  | fmtp ps as =>
+    have h := fillEvents_skel ps ((as.map (·.retext f)).map fun a => opndText (evalAtom (env.map (·.retext f)) a))
+      (as.map fun a => opndText (evalAtom env a)) (by simp)
+    simp only [SExpr.retext, expectedSite]
+    cases h1 : fillEvents ps ((as.map (·.retext f)).map fun a => opndText (evalAtom (env.map (·.retext f)) a)) <;>
+      cases h2 : fillEvents ps (as.map fun a => opndText (evalAtom env a)) <;> simp_all
   | build b => simpa [SExpr.retext, expectedSite] using bkid_skel f env b
   | frag kids => simpa [SExpr.retext, expectedSite] using bkids_skel f env kids
 
@@ -774,6 +839,7 @@ theorem sexprOkB_retext (m : Method) (e : SExpr) : sexprOkB m (e.retext f) = sex
   | join sep items => simp only [SExpr.retext, sexprOkB, all_map_congr items _ _ (atomOkB_retext f)]
   | esc a q => exact atomOkB_retext f a
   | fmt fm args => simp [SExpr.retext, sexprOkB, fargsOkB_retext]
+  | fmtp ps as => rfl
   | build b => exact bkidOkB_retext f m b
   | frag kids => exact bkidsOkB_retext f m kids
 
@@ -855,6 +921,22 @@ theorem siteOk_retext (env : Env) (e : SExpr) :
     congr 1
     cases h3 : mMod escapePy fm (evalFArgs (env.map (·.retext f)) (args.retext f)) <;>
       cases h4 : mMod escapePy fm (evalFArgs env args) <;> simp_all [Except.isOk, Except.toBool]
+  | fmtp ps as =>
+    have h1 : (as.map (·.retext f)).all (atomOk (env.map (·.retext f))) = as.all (atomOk env) := by
+      simp only [List.all_map]; congr 1; funext a; exact atomOk_retext f env a
+    have h2 : (mMod escapePy (fmtString ps) (.tup ((as.map (·.retext f)).map fun a =>
+          toOpnd (evalAtom (env.map (·.retext f)) a)))).isOk
+        = (mMod escapePy (fmtString ps) (.tup (as.map fun a => toOpnd (evalAtom env a)))).isOk := by
+      unfold mMod
+      cases parseFmt ((fmtString ps).length + 1) (fmtString ps) [] with
+      | none => rfl
+      | some pcs => exact fmtPos_isOk pcs _ _ (by simp)
+    simp only [SExpr.retext, siteOk, h1]
+    congr 1
+    cases h3 : mMod escapePy (fmtString ps) (.tup ((as.map (·.retext f)).map fun a =>
+          toOpnd (evalAtom (env.map (·.retext f)) a))) <;>
+      cases h4 : mMod escapePy (fmtString ps) (.tup (as.map fun a => toOpnd (evalAtom env a))) <;>
+      simp_all [Except.isOk, Except.toBool]
   | build b => rfl
   | frag kids => rfl
 
